@@ -247,15 +247,19 @@ func c02r3(c *Ctx) {
 			}
 			for _, o := range origins(f, cond) {
 				bo, ok := o.(*ssa.BinOp)
-				if !ok || bo.Op != token.EQL {
+				if !ok || (bo.Op != token.EQL && bo.Op != token.NEQ) {
 					continue
 				}
 				k, isC := constInt(bo.Y)
 				if isC && k == 0 && readsField(bo.X, ctr) {
+					zeroOnTrue := bo.Op == token.EQL
 					if at.Neg {
-						es = append(es, Edge{b, 1})
-					} else {
+						zeroOnTrue = !zeroOnTrue
+					}
+					if zeroOnTrue {
 						es = append(es, Edge{b, 0})
+					} else {
+						es = append(es, Edge{b, 1})
 					}
 				}
 			}
@@ -312,6 +316,10 @@ func c02r4(c *Ctx) {
 			if flag != nil {
 				for _, r := range *flag.Referrers() {
 					if _, ok := r.(*ssa.BinOp); ok {
+						used = true
+					}
+					// handed to a same-module predicate / helper that examines it
+					if call, ok := r.(*ssa.Call); ok && isModuleFn(calleeFn(call)) {
 						used = true
 					}
 				}
@@ -416,6 +424,7 @@ func c02r5(c *Ctx) {
 			if flag == nil {
 				continue
 			}
+			cuts.AddEdges(c.c02FlagHelperEdges(fn, flag, pv)...)
 			for _, b := range fn.Blocks {
 				ifi := blockIf(b)
 				if ifi == nil {
@@ -782,6 +791,130 @@ func (c *Ctx) c02FrameReads(fn *ssa.Function, target types.Object, flagIdx int, 
 		}
 		if passes && n > 0 {
 			out = append(out, call)
+		}
+	})
+	return out
+}
+
+// c02FlagEdges: the edges of f on which value flag is known to differ from the constant pv, by a direct
+// comparison of flag with a constant.
+func c02FlagEdges(f *ssa.Function, flag ssa.Value, pv int64) []Edge {
+	var out []Edge
+	for _, b := range f.Blocks {
+		ifi := blockIf(b)
+		if ifi == nil {
+			continue
+		}
+		a := condAtom(ifi.Cond)
+		if a.Op != token.EQL && a.Op != token.NEQ {
+			continue
+		}
+		var other ssa.Value
+		if a.X == flag {
+			other = a.Y
+		} else if a.Y == flag {
+			other = a.X
+		} else {
+			continue
+		}
+		k, ok := constInt(other)
+		if !ok {
+			continue
+		}
+		eq := a.Op == token.EQL
+		if a.Neg {
+			eq = !eq
+		}
+		eqEdge, neEdge := Edge{b, 0}, Edge{b, 1}
+		if !eq {
+			eqEdge, neEdge = neEdge, eqEdge
+		}
+		if k == pv {
+			out = append(out, neEdge)
+		} else {
+			out = append(out, eqEdge)
+		}
+	}
+	return out
+}
+
+// c02FlagHelperEdges: edges of fn decided by `if pred(flag)` where pred is a same-module boolean helper: the
+// edge on which pred returned want counts when every `return want` of pred lies behind an edge (inside pred)
+// on which its parameter differs from pv; also `return param != pv`-style single-expression predicates.
+func (c *Ctx) c02FlagHelperEdges(fn *ssa.Function, flag ssa.Value, pv int64) []Edge {
+	var out []Edge
+	allInstrs(fn, func(_ *ssa.BasicBlock, _ int, in ssa.Instruction) {
+		call, ok := in.(*ssa.Call)
+		if !ok {
+			return
+		}
+		g := calleeFn(call)
+		if !isModuleFn(g) || g.Signature.Results().Len() != 1 {
+			return
+		}
+		if b, isB := g.Signature.Results().At(0).Type().Underlying().(*types.Basic); !isB || b.Kind() != types.Bool {
+			return
+		}
+		var par ssa.Value
+		for i, a := range call.Call.Args {
+			if a == flag && i < len(g.Params) {
+				par = g.Params[i]
+			}
+		}
+		if par == nil {
+			return
+		}
+		inner := newCuts().AddEdges(c02FlagEdges(g, par, pv)...)
+		tE, fE := boolEdges(fn, call)
+		for _, want := range []bool{true, false} {
+			okAll, n := true, 0
+			for _, r := range c.returnsOf(g) {
+				v := r.Ret.Results[0]
+				if r.Pred != nil {
+					if phi, isPhi := v.(*ssa.Phi); isPhi {
+						for i, pr := range r.Ret.Block().Preds {
+							if pr == r.Pred {
+								v = phi.Edges[i]
+							}
+						}
+					}
+				}
+				if bv, isC := constBool(v); isC {
+					if bv != want {
+						continue
+					}
+					n++
+					if findPath(entryPoint(g), r.Target(), inner) != nil {
+						okAll = false
+					}
+					continue
+				}
+				// return <comparison of the parameter with a constant>
+				n++
+				bo, isBO := v.(*ssa.BinOp)
+				if !isBO || (bo.Op != token.EQL && bo.Op != token.NEQ) || bo.X != par {
+					okAll = false
+					continue
+				}
+				k, isK := constInt(bo.Y)
+				if !isK {
+					okAll = false
+					continue
+				}
+				// result == want implies param != pv ?
+				// EQL k: true => param==k (fact iff k != pv); false => param != k (fact iff k == pv)
+				eqOnWant := (bo.Op == token.EQL) == want
+				if eqOnWant && k == pv || !eqOnWant && k != pv {
+					okAll = false
+				}
+			}
+			if okAll && n > 0 {
+				if want {
+					out = append(out, tE...)
+				} else {
+					out = append(out, fE...)
+				}
+			}
 		}
 	})
 	return out
